@@ -27,6 +27,44 @@ class C15(Prop):
         return True
 
 
+def _lint_table():
+    from . import translate
+    return translate.lint_table()
+
+
+class C08(Prop):
+    id = "C08"
+    coq_targets = ["Properties/C08.vo", "Corr/C08.vo"]
+    props_file = "Properties/C08.v"
+    harness_cmd = "c08"
+    n = {"quick": 500, "thorough": 8000}
+    bits = {4: "a diagnostic is kept/dropped/relabelled differently from 'innermost covering filter for its lint, else the global one, else unchanged'",
+            8: "invalid_lint_filter diagnostics differ from 'unknown lint / global after code / same piece of code already filtered'"}
+    rule = ("three case families per seed: parse_comment on generated comment texts (valid, mangled, Unicode spaces); end to end: "
+            "generated programs with 0-2 filter comments per statement (inline, comma list, block comment, global, before else/end, "
+            "inside expressions, at EOF, CRLF) checked by the real Checker against the same bytes with the filters neutralised; "
+            "machine: the real filter_diagnostics driven with random diagnostic lists whose starts sit on every range endpoint +-1; "
+            "non-trivial = at least one accepted filter and one diagnostic; distinct = distinct descriptions")
+    trusted_base = [
+        "modelled verbatim: filter_diagnostics (Filter/Machine.v), parse_comment and FilterVisitor::visit_node (Filter/Comment.v)",
+        "hook (cfg selene_verif): lint_filtering::verif exposes filter ranges, parse_comment, visit events, filter_diagnostics",
+        "full_moon trivia attachment and traversal order are taken from the real traversal (visit events), wf_filters is evaluated on every dump",
+        "Vec::sort_by_key is a stable sort (modelled as stable insertion sort)",
+        "PENDING PROOF: machine = specification on well-formed families (C08_filter_correct_statement) is evaluated on every case, not yet proved",
+        "Generated/LintTable.v regenerated from use_lints! on every run",
+    ]
+    assumptions = ["wf_filters of the dumped filter list (laminar, same start => same range, pre-order, contiguous same-range runs)"]
+
+    def __init__(self):
+        self.translators = [_lint_table]
+
+
+class C09(C08):
+    id = "C09"
+    coq_targets = ["Properties/C09.vo", "Corr/C08.vo"]
+    props_file = "Properties/C09.v"
+
+
 class C06(Prop):
     id = "C06"
     coq_targets = ["Properties/C06.vo", "Corr/C06.vo"]
@@ -51,4 +89,4 @@ class C06(Prop):
 from .c19 import C19  # noqa: E402
 from .c16 import C16  # noqa: E402
 
-ALL = {c.id: c for c in [C06, C15, C16, C19]}
+ALL = {c.id: c for c in [C06, C08, C09, C15, C16, C19]}
